@@ -16,3 +16,14 @@ def assoc_then_remove(node, net):
 
 def nop():
     return None
+
+
+def stop_then_start(producer):
+    producer.stop()
+    producer.start()
+
+
+def start_set_update(pm, new):
+    pm.start()
+    pm.data[:] = new
+    pm.update()
